@@ -21,9 +21,11 @@ PInf == 50
 NInf == -50
 Finite(v) == v \notin {NaN, PInf, NInf}
 
-VARIABLES inst, mask, enabled, poison
+\* `limit`: the event limit of the configuration; it is part of the filter and
+\* therefore without effect while filtering is disabled (explored there only)
+VARIABLES inst, mask, enabled, poison, limit
 
-svars == <<inst, mask, enabled, poison>>
+svars == <<inst, mask, enabled, poison, limit>>
 Data == DataOf(inst)
 
 \* the events an analysis may use
@@ -55,10 +57,11 @@ PercentGated == Norm(100 * Cardinality(Used), N)
 
 Init == /\ inst \in Insts /\ mask \in SUBSET (1..N)
         /\ enabled \in BOOLEAN /\ poison \in BOOLEAN
+        /\ limit \in {0, 2} /\ (enabled => limit = 0)
 Next == UNCHANGED svars
 
 Emit == PrintT(<<"H", ToJson([inst |-> inst, mask |-> mask, enabled |-> enabled,
-                              poison |-> poison, used |-> Used, mean |-> Mean,
+                              poison |-> poison, limit |-> limit, used |-> Used, mean |-> Mean,
                               median |-> Median, variance |-> Variance,
                               events |-> Events, pgated |-> PercentGated])>>)
 
